@@ -105,6 +105,24 @@ CHECKS.update({
   text="40 field/element types (all supported kinds, pointer chains, nestings, and the unsupported kinds) x 22/30 tag expressions x every element of 3 documents as *T and **T; slice targets over node-sets of 0-3 nodes in both orders; 36 ill-shaped targets and results; expected values from separate Exec calls plus the statement's conversion table; never a panic; untagged fields untouched.",
   note="Exec is trusted here (verified by C01-C07). Unrepresentable float->int conversions only required not to panic.",
   ref="2 C19"),
+ "C13": dict(
+  level="model_checking",
+  technique="explicit-state BFS over call histories (Exec/Unmarshal/BuildExpr on shared objects) with state de-duplication; every transition replayed on fresh real objects; deep reflective fingerprints as invariant",
+  text="States are the contents/length/capacity of two caller-held node-set slots on two documents; 150+ operations per state (39 menu expressions from 3 context nodes, results optionally kept - also re-sliced with spare capacity -, Unmarshal, BuildExpr); depth 2 (quick) / 3 (thorough). After every call: fingerprints (unexported fields, spare capacity, cyclic pointers) of the tree, both slots' full-capacity views, all compiled expressions and the caller's maps unchanged; the result equals the same call's result in every other history; reused compiled expression = freshly built one.",
+  note="BuildExpr repeatability over the parser's internal (map-iteration) ordering is only sampled (3 builds of every C08 AST), not enumerated.",
+  ref="2 C13"),
+ "C14": dict(
+  level="model_checking",
+  technique="stateless model checking of the real code under a cooperative scheduler: DFS over all thread schedules with iterative preemption bounding; library through proxy cursors whose accessors are scheduling points, CLI through on-the-fly source rewriting + go build -overlay (one process per execution)",
+  text="Library: 8 scenarios of 2-3 threads x 1-2 real Exec calls sharing tree, compiled expressions, caller maps and a caller slice with spare capacity; every schedule with <=2 (thorough 3) preemptions: each call returns its serial result, shared slices unchanged at every scheduling point, deep fingerprints unchanged. CLI: the real main() (rewritten: go statements, channel ops, WaitGroup/Mutex, every stdout/stderr write are scheduling points) on 6 file/flag scenarios with -c 2..4: no deadlock, stdout = concatenation of exactly the serial per-file blocks (contiguous, intact, any order), nothing written after main returns, diagnostics present. Auxiliary: the same library bodies free-running under the race detector.",
+  note="Quick caps each scenario (25000 / 4000 executions) and then reports exhaustive:false with the bounds completed. Interleavings below the granularity of tree accesses / user-function calls are only covered by the auxiliary -race pass. No hook is committed to /repo.",
+  ref="2 C14"),
+ "C20": dict(
+  level="exploration",
+  technique="bounded-exhaustive enumeration of file sets x flag combinations x expressions on the freshly built command, against per-file blocks derived from the library API",
+  text="11 argument sets (good/bad/unknown files, directories with and without -r, dangling symlink, missing file, stdin) x 64 flag combinations x 19 expressions: stdout must be a concatenation of exactly the expected per-file blocks; -m records must be single lines that parse back (harness-side XML parse) to the selected node's subtree with expanded names; diagnostics on stderr name each bad input.",
+  note="Open known finding C20-newline-in-comment-or-pi. JSON-derived trees under -m (names like #obj, adjacent text nodes) are not judged for parse-back. Attribute/namespace nodes under -m only need one line carrying name and value.",
+  ref="2 C20"),
 })
 
 NOT_YET = {}
